@@ -313,6 +313,13 @@ def _reuse(rng):
     if held and rng.random() < 0.8:
         calls.extend({"op": "tick"} for _ in range(rng.randint(0, 2)))
         calls.append({"op": "release", "key": "k0"})
+    r = rng.random()                                                     # the callback is over: the new timer must still answer
+    if r < 0.25:
+        calls.append({"op": "remove", "key": "k0"})
+    elif r < 0.5:
+        calls.append({"op": "move", "key": "k0", "delay": rng.choice([1, n, n + 1, 2 * n + 1]) * iv})
+    elif r < 0.6:
+        calls.append({"op": "set", "key": "k0", "val": 4, "delay": rng.choice([1, n, n + 1, 2 * n + 1]) * iv})
     calls.extend({"op": "tick"} for _ in range(3 * n + 4))
     case["calls"] = calls
     return case
@@ -409,7 +416,7 @@ def generate(rng, tier, n):
         r = rng.random()
         if r < 0.03:
             cases.append(_drain_stop(rng))
-        elif r < 0.09:
+        elif r < 0.11:
             cases.append(_reuse(rng))
         elif r < 0.12:
             cases.append(_panic_drain(rng))
